@@ -242,8 +242,12 @@ def _materialize_rml_rule(rml_rule, rml_df, fnml_df, config, data=None, parent_j
 
     # handle the case in which all term maps are constant-valued
     if rml_rule['subject_map_type'] == RML_CONSTANT and rml_rule['predicate_map_type'] == RML_CONSTANT and rml_rule['object_map_type'] == RML_CONSTANT and rml_rule['graph_map_type'] == RML_CONSTANT:
-        # create a dataframe with 1 row
-        data = pd.DataFrame({'placeholder': ['placeholder']})
+        if data is None and not parent_join_references:
+            # create a dataframe with 1 row
+            data = pd.DataFrame({'placeholder': ['placeholder']})
+        elif data is None:
+            # a quoted triples map reached through a join: the join columns are needed
+            data = _get_data(config, rml_rule, references, python_source)
         data = _materialize_rml_rule_terms(data, rml_rule, fnml_df, config)
 
     elif rml_rule['subject_map_type'] == RML_QUOTED_TRIPLES_MAP or rml_rule['object_map_type'] == RML_QUOTED_TRIPLES_MAP:
